@@ -93,6 +93,9 @@ def policies(tier):
         # selection is C12's subject), so only the modes without a forced move are recorded there
         modes = ("greedy", "sampling", "multisample_sampling") if e == "svrp" else \
             M5 if e in (("tsp",) if quick else ("tsp", "cvrp", "sdvrp")) else M4
+        if e in ("tsp", "cvrp", "op"):
+            # sampling filters: the step distribution is the FILTERED, re-normalised one
+            modes = tuple(modes) + ("sampling/top_k2", "sampling/top_p60")
         out.append(_entry("AM", e, (lambda e=e: AttentionModelPolicy(env_name=e, **kw)), quick=e not in ("spctsp", "svrp"), modes=modes))
     # PointerNetwork has its own forward loop (no encoder/decoder split): no reference loop, round trips only
     try:
@@ -210,7 +213,33 @@ def masked_logp(logits, mask, tanh, temp):
     return torch.log_softmax(x, dim=-1)
 
 
-def reference(policy, env, td0, actions, num_starts, multistart, temperature=None):
+def filtered_logp(lp, top_k, top_p):
+    """own float64 version of the sampling filters on a masked log-softmax `lp`: top-k keeps the k largest (ties kept), then
+    top-p (nucleus) on the re-normalised rest keeps the smallest set of most likely actions whose mass reaches top_p
+    (ascending cumulative mass <= 1 - top_p is dropped; the most likely action always stays), then re-normalises.
+    Returns (log-probabilities, safe): safe[b] is False where a threshold is too close to call in float arithmetic."""
+    n = lp.shape[-1]
+    safe = torch.ones(lp.shape[0], dtype=torch.bool)
+    if top_k > 0:
+        k = min(top_k, n)
+        srt = lp.sort(dim=-1, descending=True).values
+        kth = srt[:, k - 1:k]
+        if k < n:
+            nxt = srt[:, k:k + 1]
+            safe &= ~(torch.isfinite(nxt) & ((kth - nxt).abs() < 1e-4) & (kth != nxt)).squeeze(1)
+        lp = torch.log_softmax(lp.masked_fill(lp < kth, float("-inf")), dim=-1)
+    if 0 < top_p < 1:
+        srt, idx = lp.sort(dim=-1, descending=False)
+        cum = srt.exp().cumsum(-1)
+        drop = cum <= (1 - top_p)
+        drop[:, -1] = False
+        safe &= ~((cum - (1 - top_p)).abs() < 1e-4)[:, :-1].any(-1)
+        rem = torch.zeros_like(drop).scatter(1, idx, drop)
+        lp = torch.log_softmax(lp.masked_fill(rem, float("-inf")), dim=-1)
+    return lp, safe
+
+
+def reference(policy, env, td0, actions, num_starts, multistart, temperature=None, top_k=0, top_p=0.0, reported=None):
     """independent loop: encoder once, decoder per step, own masked log-softmax (float64), teacher forcing"""
     from rl4co.utils.ops import batchify
 
@@ -234,6 +263,17 @@ def reference(policy, env, td0, actions, num_starts, multistart, temperature=Non
     for t in range(t0, T):
         logits, mask = policy.decoder(td, hidden, num_starts)
         lp = masked_logp(logits, mask, policy.tanh_clipping, temperature if temperature is not None else policy.temperature)
+        if top_k or top_p:
+            lp, safe = filtered_logp(lp, top_k, top_p)
+            col = lp.gather(1, actions[:, t:t + 1]).squeeze(1)
+            if reported is not None:     # a threshold too close to call: the step is released (reference := reported value)
+                col = torch.where(safe, col, reported[:, t].double())
+            ref.append(col)
+            masks.append(mask.clone())
+            forced.append(False)
+            td.set("action", actions[:, t])
+            td = env.step(td)["next"]
+            continue
         ref.append(lp.gather(1, actions[:, t:t + 1]).squeeze(1))
         masks.append(mask.clone())
         forced.append(False)
@@ -246,6 +286,10 @@ def mode_call(mode):
     """(decode_type, decoding kwargs, replicas per instance, forced first move)"""
     if mode in ("greedy", "sampling"):
         return mode, {}, 0, False
+    if mode.startswith("sampling/top_k"):
+        return "sampling", {"top_k": int(mode[len("sampling/top_k"):])}, 0, False
+    if mode.startswith("sampling/top_p"):
+        return "sampling", {"top_p": int(mode[len("sampling/top_p"):]) / 100.0}, 0, False
     if mode.startswith("multistart_"):
         return mode, {"num_starts": K}, K, True
     if mode == "multisample_sampling":
@@ -416,7 +460,8 @@ def records(tier, seed):
                 same = torch.equal(out_sum["actions"], actions)
                 if has_ref:
                     torch.manual_seed(seed + 1)
-                    ref, masks, forced = reference(policy, env, td0, actions, Kn, forced1, temp if tkw else None)
+                    ref, masks, forced = reference(policy, env, td0, actions, Kn, forced1, temp if tkw else None,
+                                                   top_k=mkw.get("top_k", 0), top_p=mkw.get("top_p", 0.0), reported=out["log_likelihood"])
                 else:
                     ref = out["log_likelihood"]
                     forced = [False] * actions.shape[1]
@@ -425,7 +470,7 @@ def records(tier, seed):
                 if pname == "PtrNet":     # its evaluation entry point is `eval_tours`
                     ev = policy(td0.clone(), env, phase="test", decode_type=dtype, eval_tours=actions)
                 elif not Kn:
-                    ev = policy(td0.clone(), env, actions=actions, return_sum_log_likelihood=False, **tkw)
+                    ev = policy(td0.clone(), env, actions=actions, return_sum_log_likelihood=False, **(kw if "/top_" in mode else tkw))
                 elif not forced1:
                     # K sampled rollouts per instance: the evaluation replicates the batch the same way (num_samples)
                     ev = policy(td0.clone(), env, actions=actions, return_sum_log_likelihood=False, **kw)
@@ -462,6 +507,58 @@ def records(tier, seed):
                     "reward": u(out["reward"][r]),
                     "eval_reward": u(ev["reward"][r]) if ev is not None else 0,
                 })
+    recs += irrelevant_step_records(seed)
+    return recs
+
+
+def irrelevant_step_records(seed):
+    """steps flagged as irrelevant (`td["mask"]`, the public hook ConstructivePolicy.forward hands to get_log_likelihood)
+    contribute zero -- in the per-step form and in the sum, in a rollout and in the evaluation of given actions.  No bundled
+    environment sets the key, so the harness adds it to the reset state of a real TSPEnv (it travels through _step untouched)."""
+    from rl4co.envs import TSPEnv
+    from rl4co.models.zoo import AttentionModelPolicy
+
+    recs = []
+    n, B = 6, 4
+    env = TSPEnv(generator_params={"num_loc": n})
+    flag = torch.tensor([[(b + 2 * t) % 3 != 0 for t in range(n)] for b in range(B)])      # False = irrelevant step
+    orig = env.reset
+
+    def reset(td=None, batch_size=None):
+        out = orig(td, batch_size=batch_size)
+        out["mask"] = flag[: out.shape[0]].clone()
+        return out
+
+    env.reset = reset
+    policy = AttentionModelPolicy(env_name="tsp", embed_dim=32, num_encoder_layers=1, num_heads=2).eval()
+    td0 = env.reset(batch_size=[B])
+    for mode in ("greedy", "sampling"):
+        with torch.no_grad():
+            torch.manual_seed(seed + 7)
+            out = policy(td0.clone(), env, phase="test", decode_type=mode, return_sum_log_likelihood=False)
+            torch.manual_seed(seed + 7)
+            out_sum = policy(td0.clone(), env, phase="test", decode_type=mode, return_sum_log_likelihood=True)
+            actions = out["actions"]
+            same = torch.equal(out_sum["actions"], actions)
+            ref, masks, _ = reference(policy, env, td0, actions, 0, False)
+            ev = policy(td0.clone(), env, actions=actions, return_sum_log_likelihood=False)
+            ev_sum = policy(td0.clone(), env, actions=actions, return_sum_log_likelihood=True)
+        for r in range(B):
+            lp = [u(x) for x in out["log_likelihood"][r].tolist()]
+            recs.append({"policy": "AM", "env": "tsp+irrelevant-step flags", "mode": mode, "row": r,
+                         "actions": [int(a) + 1 for a in actions[r].tolist()],
+                         "mask": [[i + 1 for i in m[r].nonzero().flatten().tolist()] for m in masks],
+                         "lp": lp, "ref": [u(x) for x in ref[r].tolist()],
+                         "forced": [not bool(f) for f in flag[r].tolist()],        # flagged steps must contribute exactly 0
+                         "ll_sum": u(out_sum["log_likelihood"][r]) if same else sum(lp),
+                         "eval_lp": [u(x) for x in ev["log_likelihood"][r].tolist()],
+                         "reward": u(out["reward"][r]), "eval_reward": u(ev["reward"][r])})
+            # the summed form of the evaluation as a pseudo-record: one step whose value must be the sum of the relevant steps
+            want = sum(x for x, f in zip(lp, flag[r].tolist()) if f)
+            recs.append({"policy": "AM", "env": "tsp+irrelevant-step flags", "mode": mode + "/evaluate-summed", "row": r,
+                         "actions": [1], "mask": [[1]], "lp": [u(ev_sum["log_likelihood"][r])], "ref": [want], "forced": [False],
+                         "ll_sum": u(ev_sum["log_likelihood"][r]), "eval_lp": [u(ev_sum["log_likelihood"][r])],
+                         "reward": u(out["reward"][r]), "eval_reward": u(ev_sum["reward"][r])})
     return recs
 
 
